@@ -564,6 +564,34 @@ func main() {
 		// ---- C10: every snapshot (crash image at a named point) is resumed with other window sizes
 		if *focus == "C10" {
 			for si, s := range snaps {
+				// a crash right after the window's data was written but before it was synced may keep the file's LENGTH and
+				// lose the CONTENT: the same image with everything from the window's start on reading as zeros
+				if s.point == "data-written" && si%2 == 0 {
+					torn := s.dir + "_torn"
+					copyDir(s.dir, torn)
+					pa, pb := paths(torn, pk, bl)
+					rs := int64(pocutil.RecordSize(bl))
+					path, off := pa, int64(massdb_v1.LenMetaInfo)+int64(s.start)*rs
+					if s.pass == "B" {
+						path, off = pb, int64(massdb_v1.LenMetaInfo)+int64(s.start)*rs*4
+					}
+					if f, err := os.OpenFile(path, os.O_RDWR, 0o644); err == nil {
+						if st, err := f.Stat(); err == nil && st.Size() > off {
+							f.WriteAt(make([]byte, st.Size()-off), off)
+						}
+						f.Close()
+					}
+					waT, wbT := g.sizes(n, false), g.sizes(n, true)
+					initT := readState(torn, pk, bl)
+					_, outT, _, _ := g.plotRun(torn, pk, bl, waT, wbT, false, -1, 20*time.Second)
+					afterT := readState(torn, pk, bl)
+					dT := fmt.Sprintf("%s; crash image at point %d (%s, pass %s, window start %d) with the unsynced window lost (length kept, content zero); resumed with cacheA=%v cacheB=%v", desc, si, s.point, s.pass, s.start, waT, wbT)
+					h.Emit(g.modelLine(bl, r, waT, wbT, initT), outLine(afterT, bl))
+					h.Res.OracleEvals++
+					h.Res.Extra["torn_resumes"] = toInt(h.Res.Extra["torn_resumes"]) + 1
+					g.checkResume(dT, outT, initT, afterT, r, bl)
+					os.RemoveAll(torn)
+				}
 				wa2, wb2 := g.sizes(n, false), g.sizes(n, true)
 				init := readState(s.dir, pk, bl)
 				withBytes := byteLevel && (bl == 8 || si%3 == 0)
